@@ -100,9 +100,7 @@ def find_sites(repo: Repo, interp: sym.Interp) -> List[Site]:
     # a generic helper (`def _decode_flags(enum_cls, value): return [m for m in enum_cls if m.value & value]`) iterates over
     # its parameter: its loop is a selection site of every function that calls it with an enum class, seen there
     generic = set()
-    for mod in repo.modules.values():
-        if not mod.name.startswith(TH):
-            continue
+    for mod in repo.modules.values():           # the helper may live anywhere in the package (a shared utilities module)
         for fn in mod.functions.values():
             rec = interp.run(mod, fn)
             for lr in rec.loops.values():
@@ -151,6 +149,12 @@ def find_sites(repo: Repo, interp: sym.Interp) -> List[Site]:
                     if lid in e.loops and e.kind == "mut-call" and e.key in ("append", "add") and e.args:
                         # conditions introduced inside the loop
                         sels.append((list(e.pc), e.args[0]))
+                if not sels and lr.target is not None and lr.break_envs:
+                    # `for m in (A, B): if word & m.value: break` - the member the loop stops at is the one selected
+                    # (the loop variable is read after the loop)
+                    survives = any(w.op == "widen" and lr.target in w.a[2] for w in lr.carried.values())
+                    if survives:
+                        sels = [(list(bpc), lr.target) for bpc, benv in lr.break_envs if lr.target in benv.values()]
                 if sels:
                     s = Site(qn, mod.name, lr.lineno, lr.iter, lr.target, sels)
                     s.exits = lr.exits
@@ -221,6 +225,9 @@ def pe(t: T, elem: T, value: int, name: str) -> T:
     return go(t)
 
 
+_REPO: list = []
+
+
 def residual_of(conds, elem: T, value: int, name: str) -> Residual:
     """Conjunction of (cond, polarity) after substituting the member; at most one non-constant conjunct is supported."""
     rest = []
@@ -255,6 +262,29 @@ def residual_of(conds, elem: T, value: int, name: str) -> Residual:
             words |= bit_word(r_, p_)
         rest = [(r_, p_) for r_, p_ in rest if not (nonzero_of(r_, p_) is not None and nonzero_of(r_, p_) in words)]
     if len(rest) > 1:
+        # "the word is above c" (the negation of an early `if word <= c: break`) adds nothing to a positive test of a bit
+        # above c of the same word
+        def above(r_, p_):
+            while r_.op == "not":
+                r_, p_ = r_.a[0], not p_
+            if r_.op == "cmp" and r_.a[2].op == "const" and isinstance(r_.a[2].a[0], int):
+                if (r_.a[0] == "<=" and not p_) or (r_.a[0] == ">" and p_):
+                    return r_.a[1], r_.a[2].a[0]
+                if (r_.a[0] == "<" and not p_) or (r_.a[0] == ">=" and p_):
+                    return r_.a[1], r_.a[2].a[0] - 1
+            return None
+        tests = []
+        for r_, p_ in rest:
+            x = r_
+            while x.op == "not":
+                x, p_ = x.a[0], not p_
+            if p_ and x.op == "bin" and x.a[0] == "&":
+                for w_, m_ in ((x.a[1], x.a[2]), (x.a[2], x.a[1])):
+                    if m_.op == "const" and isinstance(m_.a[0], int) and m_.a[0] > 0:
+                        tests.append((w_, m_.a[0] & -m_.a[0]))
+        rest = [(r_, p_) for r_, p_ in rest
+                if not (above(r_, p_) is not None and any(w_ == above(r_, p_)[0] and low > above(r_, p_)[1] for w_, low in tests))]
+    if len(rest) > 1:
         return Residual("unknown")
     r, pol = rest[0]
     # not (x) / bool(x) / x != 0 / x == 0 around a bit test: the same test, possibly with the opposite polarity
@@ -271,6 +301,13 @@ def residual_of(conds, elem: T, value: int, name: str) -> Residual:
             break
     if sym.contains(r, elem):
         return Residual("unknown")
+    # a loop-carried word is the word itself for this member only if the loop does nothing to it but clear the bits of the
+    # members it names, and no other member shares a bit with this one
+    for w_ in sym.walk(r):
+        if w_.op == "widen":
+            cw = _cleared_word(w_, _REPO[0], values=True) if _REPO else None
+            if cw is None or any(v_ != value and v_ & value for v_ in cw[1]):
+                return Residual("unknown")
     # word & c   (either order)
     if r.op == "bin" and r.a[0] == "&" and pol:
         l, rr = r.a[1], r.a[2]
@@ -297,6 +334,7 @@ def residual_of(conds, elem: T, value: int, name: str) -> Residual:
 # ------------------------------------------------------------------ check
 def check(repo: Repo, run: Run) -> None:
     interp = sym.Interp(repo)
+    _REPO[:] = [repo]
     # ---------------- R1 Darwin values
     n_known = n_unknown = 0
     unknown = []
@@ -350,6 +388,7 @@ def check(repo: Repo, run: Run) -> None:
     run.floor("R6", "flag-selection helper functions", n_helpers, 10)
 
     # ---------------- R2-R4 selection sites
+    deferred: List[str] = []
     sites = find_sites(repo, interp)
     by_enum: Dict[str, List[Site]] = {}
     n_sites = 0
@@ -386,7 +425,10 @@ def check(repo: Repo, run: Run) -> None:
                     residuals.append(residual_of(conds, s.elem, val, name))
                 live = [r for r in residuals if r.kind != "false"]
                 if any(r.kind == "unknown" for r in live):
-                    raise AnalysisError(f"{scope}: selection condition for {ci.name}.{name} is outside the supported forms")
+                    # not a verdict: raised after the rules that can be judged independently of it
+                    deferred.append(f"{scope}: selection condition for {ci.name}.{name} is outside the supported forms")
+                    live = [r for r in live if r.kind != "unknown"]
+                    shown_members.add(name)
                 for r in live:
                     if r.kind == "bit":
                         ok = r.c == val and popcount(val) == 1
@@ -460,6 +502,32 @@ def check(repo: Repo, run: Run) -> None:
                     if ok:
                         shown_bits |= val
                         shown_members.add(name)
+        # members chosen by looking a field of the word up in a table of members: `MODES.get(word & 3, E.DEFAULT)`
+        if fnode is not None:
+            for c, keys, dflt in _member_table_lookups(repo, interp, frec):
+                if not all(v.a[0] == ci.qualname for v in keys.values()):
+                    continue
+                kt = c.args[0]
+                m = None
+                if kt.op == "bin" and kt.a[0] == "&":
+                    for x, y in ((kt.a[1], kt.a[2]), (kt.a[2], kt.a[1])):
+                        if y.op == "const" and isinstance(y.a[0], int) and x.op == "param":
+                            m = y.a[0]
+                if m is not None:
+                    field_masks |= m
+                    for k, v in keys.items():
+                        if (k & ~m) == 0:
+                            shown_members.add(v.a[1])
+                            # every declared name of a value the table has a row for is answered by that row
+                            shown_members.update(nm_ for nm_, val_ in ci.members if val_ == k)
+                    if dflt is not None and dflt.op == "enum":
+                        shown_members.add(dflt.a[1])
+                elif _cleared_word(kt, repo) is not None:
+                    # judged by R9; the members are named by this function
+                    shown_members.update(v.a[1] for v in keys.values())
+                    shown_members.update(nm_ for nm_, val_ in ci.members if val_ in keys)
+                    if dflt is not None and dflt.op == "enum":
+                        shown_members.add(dflt.a[1])
         # the zero member (X_NONE = 0) has no bit of its own: a function that names it explicitly may show it exactly when
         # the word is zero - not whenever "no declared name matched", which also holds for words made of undeclared bits
         zero_names = [nm_ for nm_, v_ in ci.members if isinstance(v_, int) and not isinstance(v_, bool) and v_ == 0]
@@ -517,6 +585,9 @@ def check(repo: Repo, run: Run) -> None:
     # ---------------- R5 ioctl
     check_ioctl(repo, run, interp)
     check_packed_words(repo, run)
+    check_value_lookups(repo, run, interp)
+    if deferred:
+        raise AnalysisError(deferred[0] + (f" (+{len(deferred) - 1} more)" if len(deferred) > 1 else ""))
 
 
 def extract(t: T, req: T) -> Optional[Tuple[int, int]]:
@@ -574,6 +645,113 @@ def _extraction(t: T):
     if r is None or _is_word(t):
         return None
     return r[0], r[1]
+
+
+def _cleared_word(t: T, repo: Repo, values: bool = False):
+    """For a loop-carried word that the loop only ever narrows with `w &= ~<member>.value` (or leaves alone): (initial word,
+    union of the bits the loop can clear).  None for any other update."""
+    if t.op != "widen":
+        return None
+    name, lid, alts = t.a
+    init = None
+    clear = 0
+    vals = []
+
+    def is_self(x):
+        return x.op == "widen" and x.a[0] == name and x.a[1] == lid
+
+    def leaves(x):
+        if x.op == "ite":
+            yield from leaves(x.a[1])
+            yield from leaves(x.a[2])
+        else:
+            yield x
+    for i, alt in enumerate(alts):
+        for leaf in leaves(alt):
+            if is_self(leaf):
+                continue
+            if leaf.op == "bin" and leaf.a[0] == "&" and any(is_self(x) for x in leaf.a[1:]):
+                other = leaf.a[2] if is_self(leaf.a[1]) else leaf.a[1]
+                if other.op == "un" and other.a[0] == "~":
+                    m = other.a[1]
+                    if m.op == "const" and isinstance(m.a[0], int):
+                        clear |= m.a[0]
+                        vals.append(m.a[0])
+                        continue
+                    if m.op == "attr" and m.a[1] == "value" and m.a[0].op == "elem":
+                        es = enum_source(repo, m.a[0].a[0])
+                        if es is not None:
+                            for _, v in es[1]:
+                                clear |= v
+                                vals.append(v)
+                            continue
+                return None
+            if i == 0 and init is None:
+                init = leaf
+                continue
+            return None
+    if init is None:
+        return None
+    return (init, vals) if values else (init, clear)
+
+
+def _member_table_lookups(repo: Repo, interp, rec):
+    """[(call record, {int key: enum member term}, default term or None)] for `TABLE.get(key[, default])` calls on a
+    module-level dict literal from integers to enum members."""
+    out = []
+    for c in rec.calls:
+        f = c.func
+        if not (f.op == "attr" and f.a[1] == "get" and f.a[0].op == "global" and 1 <= len(c.args) <= 2):
+            continue
+        found = repo.lookup(f.a[0].a[0])
+        if not found or found[0] != "const" or not isinstance(found[2], ast.Dict):
+            continue
+        fr = sym._Frame(interp, found[1], None, None, sym.Record(), "module-constant", 0, ())
+        table = fr.eval(found[2], sym.State({}, {}, ()))
+        if table.op != "dict" or not table.a[0] or not all(k.op == "const" and isinstance(k.a[0], int) and v.op == "enum"
+                                                            for k, v in table.a[0]):
+            continue
+        out.append((c, {k.a[0]: v for k, v in table.a[0]}, c.args[1] if len(c.args) == 2 else None))
+    return out
+
+
+def check_value_lookups(repo: Repo, run: Run, interp) -> None:
+    """R9: a name chosen by looking a value up in a table of members (`MODES.get(key, default)`): the key has to be the
+    field the members are values of.  A key that is "what is left of the word after the named bits were ticked off" still
+    carries every bit that has no declared name, so the lookup misses and the default is shown for a non-default field."""
+    n = 0
+    for mod in repo.modules.values():
+        if not mod.name.startswith(TH):
+            continue
+        for fname, fnode in mod.functions.items():
+            if not any(isinstance(x, ast.Attribute) and x.attr == "get" for x in ast.walk(fnode)) or len(fnode.args.args) != 1:
+                continue
+            rec = interp.run(mod, fnode)
+            word = param(fnode.args.args[0].arg)
+            for c, keys, dflt_ in _member_table_lookups(repo, interp, rec):
+                f = c.func
+                cw = _cleared_word(c.args[0], repo)
+                if cw is None or cw[0] != word:
+                    continue
+                n += 1
+                init, clear = cw
+                key_bits = 0
+                for k in keys:
+                    key_bits |= k
+                survive = 0xffffffff & ~(clear | key_bits)
+                dflt = c.args[1] if len(c.args) == 2 else const(None)
+                ci = repo.lookup(next(iter(keys.values())).a[0])[2]
+                md = ci.member_dict()
+                wrong = [k for k in keys if k != 0 and not (dflt.op == "enum" and md.get(dflt.a[1]) == k)]
+                ok = not (survive and wrong)
+                wit = (wrong[0] | (survive & -survive)) if not ok else None
+                run.ob("R9", mod.name, fname, f"{f.a[0].a[0].rsplit('.', 1)[1]}.get(<rest of the word>)", ok,
+                       "" if ok else
+                       f"{fname} looks the value up in {f.a[0].a[0].rsplit('.', 1)[1]} with what is left of the word after the loop "
+                       f"cleared the bits it named ({clear:#x}); bits without a declared name (e.g. {survive & -survive:#x}) stay in "
+                       f"the key, the lookup misses and {sym.pretty(dflt)} is shown although the field is "
+                       f"{sym.pretty(keys[wrong[0]])}", line=c.lineno, witness=None if ok else f"word = {wit:#x}")
+    run.analysed["value_lookups_by_cleared_word"] = n
 
 
 def check_packed_words(repo: Repo, run: Run) -> None:
